@@ -443,7 +443,7 @@ type Spelling struct {
 	ExplicitRoot bool
 	Bases        map[string]bool // key-int:dec|hex|oct, list-index:dec|hex|oct
 	Quotes       map[string]bool // dq, sq
-	Escapes      map[string]bool // simple, hex, oct, u4, u8, raw-utf8
+	Escapes      map[string]bool // simple, oct1..3, oct-leading-zero, hex1, hex2, u4, u8, raw-utf8, then-literal-digit
 	Negative     bool
 }
 
@@ -453,47 +453,230 @@ func newSpelling() *Spelling {
 
 var simpleEsc = map[rune]byte{'\a': 'a', '\b': 'b', '\f': 'f', '\n': 'n', '\r': 'r', '\t': 't', '\v': 'v', '\\': '\\', '\'': '\'', '"': '"', '?': '?'}
 
-// QuoteString spells s as a quoted string literal of the path grammar (protobuf text-format
-// string syntax): either quote, escapes chosen at random among the equivalent forms.
+func isOctDigit(c rune) bool { return c >= '0' && c <= '7' }
+func isHexDigit(c rune) bool {
+	return c >= '0' && c <= '9' || c >= 'a' && c <= 'f' || c >= 'A' && c <= 'F'
+}
+
+func randCase(r *rand.Rand, s string) string {
+	switch r.IntN(3) {
+	case 0:
+		return strings.ToUpper(s)
+	case 1:
+		return s
+	}
+	b := []byte(s)
+	for i := range b {
+		if r.IntN(2) == 0 && b[i] >= 'a' && b[i] <= 'f' {
+			b[i] -= 'a' - 'A'
+		}
+	}
+	return string(b)
+}
+
+// QuoteString spells s as a quoted string literal of the path grammar as scan.go documents it
+// (protobuf text-format string syntax, escapes compose runes): either quote; per character raw or
+// one of the equivalent escapes - simple, octal of 1, 2 or 3 digits (greedy: a short form is only
+// used when no octal digit follows), \x or \X with 1 or 2 hex digits in either case (short form
+// only when no hex digit follows), \uHHHH, \UHHHHHHHH. A fixed-width escape may be followed by a
+// literal digit ("\0601" is "01"). The result is checked against Unescape, an independent reading
+// of the documented grammar, before it is used.
 func QuoteString(r *rand.Rand, s string, sp *Spelling) string {
 	q := byte('"')
-	sp.Quotes["dq"] = true
+	qn := "dq"
 	if r.IntN(2) == 0 {
-		q = '\''
-		delete(sp.Quotes, "dq")
-		sp.Quotes["sq"] = true
+		q, qn = '\'', "sq"
 	}
+	sp.Quotes[qn] = true
+	rs := []rune(s)
+	escapePct := []int{0, 25, 25, 50, 100}[r.IntN(5)]
+	used := map[string]bool{}
 	var b strings.Builder
 	b.WriteByte(q)
-	for _, c := range s {
+	prevEscaped := false
+	for i, c := range rs {
+		var next rune = -1
+		if i+1 < len(rs) {
+			next = rs[i+1]
+		}
 		must := c == rune(q) || c == '\\' || c == '\n' || c == 0
-		if !must && r.IntN(4) != 0 {
+		if !must && r.IntN(100) >= escapePct {
 			if c >= 0x80 {
-				sp.Escapes["raw-utf8"] = true
+				used["raw-utf8"] = true
+			}
+			if prevEscaped && c >= '0' && c <= '9' {
+				used["then-literal-digit"] = true
 			}
 			b.WriteRune(c)
+			prevEscaped = false
 			continue
 		}
 		// the equivalent escaped forms of c
 		var forms []string
 		if e, ok := simpleEsc[c]; ok {
-			forms = append(forms, "simple:\\"+string(e))
+			forms = append(forms, "simple:\\"+string(e), "simple:\\"+string(e))
 		}
-		if c < 0x80 {
-			// \x and octal escapes denote bytes in the text format; only ASCII is unambiguous.
-			forms = append(forms, fmt.Sprintf("hex:\\x%02x", c), fmt.Sprintf("hex:\\X%02X", c), fmt.Sprintf("oct:\\%03o", c))
+		if c <= 0xff { // code points, as the scanner documents ("composed rune"); kept within one byte's range
+			o := strconv.FormatInt(int64(c), 8)
+			for w := len(o); w <= 3; w++ {
+				if w < 3 && isOctDigit(next) {
+					continue // a following octal digit would be swallowed by the greedy scan
+				}
+				name := fmt.Sprintf("oct%d", w)
+				if w > len(o) {
+					name += "+oct-leading-zero"
+				}
+				forms = append(forms, name+":\\"+strings.Repeat("0", w-len(o))+o)
+			}
+			h := strconv.FormatInt(int64(c), 16)
+			x := string("xX"[r.IntN(2)])
+			if len(h) == 1 && !isHexDigit(next) {
+				forms = append(forms, "hex1:\\"+x+randCase(r, h), "hex1:\\"+x+randCase(r, h))
+			}
+			forms = append(forms, "hex2:\\"+x+randCase(r, fmt.Sprintf("%02x", c)))
 		}
 		if c <= 0xffff {
-			forms = append(forms, fmt.Sprintf("u4:\\u%04x", c))
+			forms = append(forms, "u4:\\u"+randCase(r, fmt.Sprintf("%04x", c)))
 		}
-		forms = append(forms, fmt.Sprintf("u8:\\U%08X", c))
+		forms = append(forms, "u8:\\U"+randCase(r, fmt.Sprintf("%08x", c)))
 		f := forms[r.IntN(len(forms))]
-		i := strings.IndexByte(f, ':')
-		sp.Escapes[f[:i]] = true
-		b.WriteString(f[i+1:])
+		j := strings.IndexByte(f, ':')
+		for _, n := range strings.Split(f[:j], "+") {
+			used[n] = true
+		}
+		b.WriteString(f[j+1:])
+		prevEscaped = !strings.HasPrefix(f, "simple")
 	}
 	b.WriteByte(q)
-	return b.String()
+	out := b.String()
+	if got, err := Unescape(out); err != nil || got != s {
+		// generator and documented grammar disagree: never let that become a verdict
+		sp.Escapes["GENERATOR-FALLBACK"] = true
+		b.Reset()
+		b.WriteByte(q)
+		for _, c := range rs {
+			fmt.Fprintf(&b, "\\U%08x", c)
+		}
+		b.WriteByte(q)
+		return b.String()
+	}
+	for n := range used {
+		sp.Escapes[n] = true
+	}
+	return out
+}
+
+// Unescape reads a quoted string literal by the grammar scan.go documents, written from that
+// description only: simple escapes \a \b \f \n \r \t \v \\ \' \" \?; octal = '\' + 1 to 3 octal
+// digits, as many as are there (oct13Re "1, 2, or 3 octal numerals"; the repository's test reads
+// "\118" as \11 then '8'); hex = '\x' or '\X' + 1 or 2 hex digits, as many as are there; \u + 4,
+// \U + 8 hex digits; every numeric escape composes one rune. Raw newline, NUL, backslash and the
+// quote character are not allowed inside.
+func Unescape(lit string) (string, error) {
+	if len(lit) < 2 || (lit[0] != '"' && lit[0] != '\'') || lit[len(lit)-1] != lit[0] {
+		return "", fmt.Errorf("not a quoted literal")
+	}
+	q := lit[0]
+	body := lit[1 : len(lit)-1]
+	var out strings.Builder
+	digits := func(at, maxN int, ok func(rune) bool) string {
+		n := 0
+		for n < maxN && at+n < len(body) && ok(rune(body[at+n])) {
+			n++
+		}
+		return body[at : at+n]
+	}
+	for i := 0; i < len(body); {
+		c := body[i]
+		switch {
+		case c == q || c == '\n' || c == 0:
+			return "", fmt.Errorf("raw %q inside the literal at %d", c, i)
+		case c != '\\':
+			rn, size := utf8.DecodeRuneInString(body[i:])
+			if rn == utf8.RuneError && size == 1 {
+				return "", fmt.Errorf("invalid UTF-8 at %d", i)
+			}
+			out.WriteRune(rn)
+			i += size
+		default:
+			if i+1 >= len(body) {
+				return "", fmt.Errorf("dangling backslash")
+			}
+			e := body[i+1]
+			var d string
+			var base, skip int
+			switch {
+			case e >= '0' && e <= '7':
+				d, base, skip = digits(i+1, 3, isOctDigit), 8, 1
+			case e == 'x' || e == 'X':
+				d, base, skip = digits(i+2, 2, isHexDigit), 16, 2
+			case e == 'u':
+				d, base, skip = digits(i+2, 4, isHexDigit), 16, 2
+				if len(d) != 4 {
+					d = ""
+				}
+			case e == 'U':
+				d, base, skip = digits(i+2, 8, isHexDigit), 16, 2
+				if len(d) != 8 {
+					d = ""
+				}
+			default:
+				found := false
+				for rn, name := range simpleEsc {
+					if name == e {
+						out.WriteRune(rn)
+						found = true
+					}
+				}
+				if !found {
+					return "", fmt.Errorf("unknown escape \\%c", e)
+				}
+				i += 2
+				continue
+			}
+			if d == "" {
+				return "", fmt.Errorf("numeric escape without digits at %d", i)
+			}
+			n, err := strconv.ParseUint(d, base, 32)
+			if err != nil || !utf8.ValidRune(rune(n)) {
+				return "", fmt.Errorf("numeric escape %q is not a code point", d)
+			}
+			out.WriteRune(rune(n))
+			i += skip + len(d)
+		}
+	}
+	return out.String(), nil
+}
+
+// Confusables returns the strings a scanner would produce for s if it cut the octal or hex
+// escape of the first character short (fixed 1 or 2 digits instead of "as many as are there"):
+// "0" spelled \060 becomes NUL,'6','0' or ACK,'0'. Maps are filled with a key together with its
+// confusables, so that such a scanner returns another entry's value rather than only an error.
+func Confusables(s string) []string {
+	rs := []rune(s)
+	if len(rs) == 0 || rs[0] > 0xff {
+		return nil
+	}
+	c, rest := rs[0], string(rs[1:])
+	seen := map[string]bool{s: true}
+	var out []string
+	add := func(v string) {
+		if !seen[v] {
+			seen[v] = true
+			out = append(out, v)
+		}
+	}
+	val := func(d string, base int) rune { n, _ := strconv.ParseUint(d, base, 32); return rune(n) }
+	o3 := fmt.Sprintf("%03o", c)
+	add(string(val(o3[:1], 8)) + o3[1:] + rest)
+	add(string(val(o3[:2], 8)) + o3[2:] + rest)
+	if o := strconv.FormatInt(int64(c), 8); len(o) == 2 {
+		add(string(val(o[:1], 8)) + o[1:] + rest)
+	}
+	h := fmt.Sprintf("%02x", c)
+	add(string(val(h[:1], 16)) + h[1:] + rest)
+	add(string(val(h[:1], 16)) + strings.ToUpper(h[1:]) + rest)
+	return out
 }
 
 // IntString spells an integer literal in decimal, hexadecimal or octal; site labels the use
@@ -558,6 +741,7 @@ func Render(r *rand.Rand, rootName string, steps []Step) (string, *Spelling) {
 // Random messages and paths
 
 var keyStrings = []string{"", "a", "b c", "q\"uote", "it's", "é", "tab\t", "back\\slash", "line\nfeed", "nul\x00byte", "日本語", "\U0001F512lock",
+	"0", "01", "7", "8", "\x00", "\t", "\n", "a\tb", "0\n1", "\x00\x00", " ", "8\x009", "\x0060", "\x0600", "A1", "\x7f", "ÿ", "\u0080",
 	"?", "\a\b\f\r\v", "]", "[0]", ".", "key", "value", "�", "߿ࠀ￿", strings.Repeat("long", 64)}
 
 var int32Pool = []int64{0, 1, -1, 2, 7, -8, 16, 255, math.MaxInt32, math.MinInt32, 1 << 20, -(1 << 20)}
@@ -691,8 +875,18 @@ func Fill(r *rand.Rand, msg protoreflect.Message, depth int) {
 		switch {
 		case fd.IsMap():
 			mp := msg.Mutable(fd).Map()
+			var keys []Lit
 			for n := 1 + r.IntN(3); n > 0; n-- {
-				k, _ := KeyOf(fd.MapKey().Kind(), RandKeyLit(r, fd.MapKey().Kind()))
+				l := RandKeyLit(r, fd.MapKey().Kind())
+				keys = append(keys, l)
+				if l.Kind == LStr && r.IntN(2) == 0 {
+					for _, cf := range Confusables(l.S) {
+						keys = append(keys, Lit{Kind: LStr, S: cf})
+					}
+				}
+			}
+			for _, l := range keys {
+				k, _ := KeyOf(fd.MapKey().Kind(), l)
 				if fd.MapValue().Kind() == protoreflect.MessageKind {
 					v := mp.NewValue()
 					if r.IntN(6) != 0 {
@@ -764,6 +958,13 @@ func RandPath(r *rand.Rand, root protoreflect.Message, o GenOpts) []Step {
 			// Range order is unspecified: order by number first so that the draw is reproducible
 			sortFDs(pop)
 			fd = pop[r.IntN(len(pop))]
+			if r.IntN(4) == 0 { // string keys have by far the most spellings: visit them more often
+				for _, p := range pop {
+					if p.IsMap() && p.MapKey().Kind() == protoreflect.StringKind {
+						fd = p
+					}
+				}
+			}
 		} else {
 			fd = fds.Get(r.IntN(fds.Len()))
 		}
